@@ -54,13 +54,14 @@ def consts(paths, maxmaps, sels, statms=(1, 2), totals=(50000,), rollups=("prese
 
 
 def configs(tier):
-    """name -> constants.  quick: 0-3 mappings over 4 paths (anonymous, spaces+colon, plain,
-    unlinked) x all 32 optional-line subsets x 3 roll-up modes, plus every path of the table
-    in pairs.  thorough adds 4 mappings: all subsets over 3 paths, and all 7 paths over 4
-    representative subsets."""
-    c = {"maps3-paths4-allopts": consts((1, 2, 3, 4), 3, "all"),
+    """name -> constants.  quick: 0-3 mappings over 3 paths (anonymous, spaces+colon, unlinked)
+    x all 32 optional-line subsets x 3 roll-up modes, plus every path of the table in pairs.
+    thorough adds a 4th path to that, and 4 mappings: all subsets over 3 paths, and all 7
+    paths over 4 representative subsets."""
+    c = {"maps3-paths3-allopts": consts((1, 2, 4), 3, "all"),
          "maps2-paths7": consts((1, 2, 3, 4, 5, 6, 7), 2, 2, statms=(1, 2, 3), totals=(50000, 7777))}
     if tier == "thorough":
+        c["maps3-paths4-allopts"] = consts((1, 2, 3, 4), 3, "all")
         c["maps4-paths3-allopts"] = consts((1, 2, 4), 4, "all")
         c["maps4-paths7"] = consts((1, 2, 3, 4, 5, 6, 7), 4, 4)
     return c
@@ -113,7 +114,6 @@ def query(ps, types):
     full = pr.memory_full_info()
     un = pr.memory_maps(grouped=False)
     gr = pr.memory_maps(grouped=True)
-    gr_default = pr.memory_maps()
     pct = {}
     for t in types:
         try:
@@ -122,7 +122,7 @@ def query(ps, types):
             pct[t] = "ValueError"
     return {"info": dict(info._asdict()), "full": dict(full._asdict()),
             "maps": [dict(r._asdict()) for r in un], "grouped": [dict(r._asdict()) for r in gr],
-            "grouped_default": [dict(r._asdict()) for r in gr_default], "percent": pct}
+            "percent": pct}
 
 
 def addr_text(lo, hi, amul):
@@ -133,20 +133,31 @@ def _rowkey(r):
     return json.dumps(r, sort_keys=True, default=str)
 
 
+INFO_FIELDS = MEM_FIELDS[:7]
+GROUPED_FIELDS = ["path"] + NUM_FIELDS
+ROW_FIELDS = ["addr", "perms"] + GROUPED_FIELDS
+
+
+def _proj(d, fields):
+    """Only the fields the statement speaks of (a field psutil may add later is not an error;
+    a stated field that is missing shows up as None)."""
+    return {k: d.get(k) for k in fields}
+
+
 def compare(got, out, inp, S, amul):
     """Mismatches as 'tag | text'.  Only what the statement states: values by field name,
     rows as multisets (no order is stated)."""
     bad = []
     src = "rollup-" + inp["rollup"]
     exp = {k: v * S for k, v in out["info"].items()}
-    if got["info"] != exp:
-        for k in sorted(set(exp) | set(got["info"])):
+    if _proj(got["info"], exp) != exp:
+        for k in sorted(exp):
             if got["info"].get(k) != exp.get(k):
                 bad.append("memory_info.%s | memory_info().%s -> %r, expected %r pages x %d"
                            % (k, k, got["info"].get(k), None if k not in exp else exp[k] // PAGE, PAGE))
     exp = {k: v * S for k, v in out["full"].items()}
-    if got["full"] != exp:
-        for k in sorted(set(exp) | set(got["full"])):
+    if _proj(got["full"], exp) != exp:
+        for k in sorted(exp):
             if got["full"].get(k) != exp.get(k):
                 bad.append("memory_full_info.%s:%s | memory_full_info().%s -> %r, expected %r (source: %s)"
                            % (k, src if k in ("uss", "pss", "swap") else "statm", k, got["full"].get(k), exp.get(k), src))
@@ -155,28 +166,26 @@ def compare(got, out, inp, S, amul):
         e = {f: r[f] * S for f in NUM_FIELDS}
         e.update(addr=addr_text(r["addr"][0], r["addr"][1], amul), perms=r["perms"], path=r["path"])
         erows.append(e)
-    if sorted(map(_rowkey, got["maps"])) != sorted(map(_rowkey, erows)):
-        ge = {r.get("addr"): r for r in got["maps"]}
-        what = "rows"
-        if len(got["maps"]) != len(erows) or set(ge) != {e["addr"] for e in erows}:
+    grows = [_proj(r, ROW_FIELDS) for r in got["maps"]]
+    if sorted(map(_rowkey, grows)) != sorted(map(_rowkey, erows)):
+        ge = {r.get("addr"): r for r in grows}
+        if len(grows) != len(erows) or set(ge) != {e["addr"] for e in erows}:
             what = "rows"
         else:
-            diff = sorted({k for e in erows for k in e if ge[e["addr"]].get(k) != e[k]}
-                          | {k for e in erows for k in ge[e["addr"]] if k not in e})
-            what = ",".join(diff)
+            what = ",".join(sorted({k for e in erows for k in e if ge[e["addr"]].get(k) != e[k]}))
         bad.append("memory_maps(grouped=False):%s | memory_maps(grouped=False) -> %r, expected (any order) %r"
-                   % (what, got["maps"], erows))
+                   % (what, grows, erows))
     egr = []
     for r in out["grouped"]:
         e = {f: r[f] * S for f in NUM_FIELDS}
         e["path"] = r["path"]
         egr.append(e)
-    for name in ("grouped", "grouped_default"):
-        if sorted(map(_rowkey, got[name])) != sorted(map(_rowkey, egr)):
-            gp = sorted(str(r.get("path")) for r in got[name])
-            what = "paths" if gp != sorted(e["path"] for e in egr) else "sums"
-            call = "memory_maps(grouped=True)" if name == "grouped" else "memory_maps()"
-            bad.append("%s:%s | %s -> %r, expected (any order) %r" % (call, what, call, got[name], egr))
+    ggr = [_proj(r, GROUPED_FIELDS) for r in got["grouped"]]
+    if sorted(map(_rowkey, ggr)) != sorted(map(_rowkey, egr)):
+        gp = sorted(str(r.get("path")) for r in ggr)
+        what = "paths" if gp != sorted(e["path"] for e in egr) else "sums"
+        bad.append("memory_maps(grouped=True):%s | memory_maps(grouped=True) -> %r, expected (any order) %r"
+                   % (what, ggr, egr))
     for t, e in out["percent"].items():
         x = got["percent"].get(t)
         if e["err"] == "ValueError":
@@ -287,21 +296,22 @@ def symbolic(g, inp, S, amul):
     """The recorded answers in the specification's units (scale divided out, address text
     turned back into page numbers, floats turned into the exact numerator they stand for);
     anything that does not divide out becomes -1, which no specification value equals."""
-    got = {"info": {k: _unscale(v, S) for k, v in g["info"].items()},
-           "full": {k: _unscale(v, S) for k, v in g["full"].items()}}
+    got = {"info": {k: _unscale(g["info"].get(k), S) for k in INFO_FIELDS},
+           "full": {k: _unscale(g["full"].get(k), S) for k in MEM_FIELDS}}
     rows = []
     for r in g["maps"]:
-        e = {k: (_unscale(v, S) if k in NUM_FIELDS else v) for k, v in r.items()}
+        e = {k: (_unscale(r.get(k), S) if k in NUM_FIELDS else str(r.get(k))) for k in ROW_FIELDS}
         try:
             lo, hi = (int(x, 16) for x in r["addr"].split("-"))
             unit = PAGE * amul
             ok = lo % unit == 0 and hi % unit == 0 and r["addr"] == "%08x-%08x" % (lo, hi)
             e["addr"] = [lo // unit, hi // unit] if ok else [-1, -1]
-        except (ValueError, AttributeError):
+        except (ValueError, AttributeError, KeyError):
             e["addr"] = [-1, -1]
         rows.append(e)
     got["maps"] = rows
-    got["grouped"] = [{k: (_unscale(v, S) if k in NUM_FIELDS else v) for k, v in r.items()} for r in g["grouped"]]
+    got["grouped"] = [{k: (_unscale(r.get(k), S) if k in NUM_FIELDS else str(r.get(k))) for k in GROUPED_FIELDS}
+                      for r in g["grouped"]]
     pct = {}
     den = inp["total"] * 1024
     for t, x in g["percent"].items():
@@ -333,16 +343,28 @@ def rand_chunk(job):
         except Exception as ex:  # noqa: BLE001
             lines.append({"inp": inp, "scale": S, "amul": amul, "error": repr(ex), "etype": type(ex).__name__})
             continue
-        line = {"inp": inp, "scale": S, "amul": amul, "got": symbolic(g, inp, S, amul)}
-        if sorted(map(_rowkey, g["grouped"])) != sorted(map(_rowkey, g["grouped_default"])):
-            line["default_differs"] = [g["grouped"], g["grouped_default"]]
-        lines.append(line)
+        lines.append({"inp": inp, "scale": S, "amul": amul, "got": symbolic(g, inp, S, amul)})
     return lines
 
 
-def trace_validate(ctx, n):
-    jobs = [(ctx.seed * 1000 + i, n // 16 + 1) for i in range(16)]
-    res = forkpool.map_fork(rand_chunk, jobs, timeout=600)
+def rand_one(job):
+    """Forked: re-run one recorded line (replay)."""
+    inp, S, amul = job
+    w, ps = template()
+    build_world(w, inp, S, amul)
+    try:
+        g = query(ps, MEM_FIELDS + BAD_TYPES)
+    except Exception as ex:  # noqa: BLE001
+        return [{"inp": inp, "scale": S, "amul": amul, "error": repr(ex), "etype": type(ex).__name__}]
+    return [{"inp": inp, "scale": S, "amul": amul, "got": symbolic(g, inp, S, amul)}]
+
+
+def trace_validate(ctx, n, only=None):
+    if only is not None:
+        jobs, fn = [(only["inp"], only["scale"], only["amul"])], rand_one
+    else:
+        jobs, fn = [(ctx.seed * 1000 + i, n // 16 + 1) for i in range(16)], rand_chunk
+    res = forkpool.map_fork(fn, jobs, timeout=600)
     lines = []
     for st, val in res:
         if st != "ok":
@@ -352,9 +374,6 @@ def trace_validate(ctx, n):
         ctx.disagree("trace:exception:" + l["etype"],
                      "a C13 query raised on a kernel-formatted record: %s (input %r, scale %d)"
                      % (l["error"], l["inp"], l["scale"]), l)
-    for l in [l for l in lines if "default_differs" in l][:1]:
-        ctx.disagree("trace:memory_maps():default", "memory_maps() and memory_maps(grouped=True) differ: %r"
-                     % (l["default_differs"],), l)
     seen = set()
     for l in lines:     # a record on which the code raised still exercised its input class
         seen |= classes_of(l["inp"])
@@ -362,7 +381,7 @@ def trace_validate(ctx, n):
             seen.add("maps>=8")
         ctx.case(("trace", json.dumps(l["inp"], sort_keys=True), l["scale"], l["amul"]))
     missing = (REQUIRED | {"maps>=8"}) - seen
-    if missing:
+    if missing and only is None:
         raise core.Machinery("random driver never produced input class(es) %s" % sorted(missing))
     lines = [l for l in lines if "got" in l]
     if not lines:
@@ -507,12 +526,30 @@ def warm(ctx):
             functional.events_of(rd)
 
 
+def replay_one(ctx, path):
+    rep = json.load(open(path))["replay"]
+    if "case" in rep:       # an enumerated record: [event, scale, address multiplier]
+        ev, S, amul = rep["case"]
+        st, val = forkpool.map_fork(run_chunk, [[(ev, S, amul)]])[0]
+        if st != "ok":
+            raise core.Machinery("replay failed: %s" % (val,))
+        for idx, text in val:
+            ctx.disagree("conf:" + sig_fn(None, text), "code and specification disagree: %s" % text, rep)
+        ctx.case(json.dumps(rep, sort_keys=True))
+    elif "inp" in rep:      # a recorded line of the random driver: run it again, TLC judges
+        trace_validate(ctx, 1, only=rep)
+    else:
+        raise core.Machinery("nothing to replay in %s (live findings: rerun the check)" % path)
+
+
 def check(ctx):
     forkpool.start(16, init=template)
+    if ctx.replay_file:
+        return replay_one(ctx, ctx.replay_file)
     thorough = ctx.tier == "thorough"
     ctx.cov["rule"] = ("cases = abstract <statm, mappings, roll-up mode, MemTotal> records (x count scale x address "
                        "multiplier) rendered by sim_c13 into statm/smaps/smaps_rollup/meminfo and queried through "
-                       "memory_info, memory_full_info, memory_maps (3 call forms) and memory_percent (15 names); "
+                       "memory_info, memory_full_info, memory_maps (both forms) and memory_percent (15 names); "
                        "distinct = distinct (record, scale, multiplier)")
     ctx.assumptions += [
         "sim_c13 renders smaps/smaps_rollup as fs/proc/task_mmu.c does (calibrated byte for byte against this kernel's "
